@@ -103,6 +103,7 @@ def _inject(env, mvt, K, cfg):
 def _step(env, cfg):
     base, alpha = _base(env, cfg)
     mvt = MultiValueTracker(base)
+    base.update(env.real('caller_keeps_using_its_tracker'))     # must not leak into keys that appear later
     K, U = list(cfg['K']), list(cfg['U'])
     st, N = _inject(env, mvt, K, cfg)
     values = {k: env.real(f"v_{k}", _fl(cfg, i + 1)) for i, k in enumerate(U)}
@@ -167,6 +168,7 @@ def _history(env, cfg):
     """fresh tracker; every history of key sets of length T; compared with independent per-key references"""
     base, alpha = _base(env, cfg)
     mvt = MultiValueTracker(base)
+    base.update(env.real('caller_keeps_using_its_tracker'))
     keys = list(cfg['keys'])
     subsets = _subsets(keys)
     ref = {}       # key -> (value, count)
